@@ -1,5 +1,6 @@
 (* C11 — breakpoints always stop execution before the marked instruction. *)
-From Lace Require Import Word Machine Isa Vm Asm Dbg DbgProofs DbgRef.
+From Coq Require Import List.
+From Lace Require Import Word Machine Isa Vm Asm Dbg DbgProofs DbgRef AsmBreaks.
 From Lace Require Examples.
 Open Scope N_scope.
 
@@ -71,8 +72,45 @@ Theorem C11_ref_resume : forall feat bps fuel c st m,
 Proof. exact ref_cmd_leaves_breakpoint. Qed.
 Print Assumptions C11_ref_resume.
 
+(** `.break` marks the NEXT statement and occupies no memory (AsmBreaks.v).  [marks] reads the
+    statement boundaries of the preprocessed tokens off the operand table and lists, for every
+    `.break`, the number of statements in front of it; for every source the assembler accepts the
+    image's breakpoint table is exactly that list, inserted in order — wherever the `.orig` line
+    stands and whatever the origin is (the debugger adds the load address: [with_orig] in
+    [debug_session]). *)
+Theorem C11_break_marks : forall feat sym0 src toks im sym,
+  preprocess feat (S (length src)) src 0 nil = Ok toks ->
+  assemble feat sym0 src = (Ok im, sym) ->
+  i_bps im = record nil (marks 0 toks 0).
+Proof. exact assemble_marks. Qed.
+Print Assumptions C11_break_marks.
+
+(** An offset carries a declared breakpoint iff a `.break` stands in front of the statement with
+    that index. *)
+Theorem C11_break_iff : forall feat sym0 src toks im sym a,
+  preprocess feat (S (length src)) src 0 nil = Ok toks ->
+  assemble feat sym0 src = (Ok im, sym) ->
+  (In a (map fst (i_bps im)) <-> In a (map wrap (marks 0 toks 0))).
+Proof. exact break_iff. Qed.
+Print Assumptions C11_break_iff.
+
+(** No memory: a mark never exceeds the number of statements (it names a statement, or the address
+    just behind the last one). *)
+Theorem C11_break_bounds : forall toks skip count c,
+  In c (marks skip toks count) -> count <= c <= count_after skip toks count.
+Proof. exact marks_bounds. Qed.
+Print Assumptions C11_break_bounds.
+
 (** Non-vacuity: a state whose PC carries a breakpoint; a sorted breakpoint list. *)
 Example C11_nonvacuous :
   bp_get (d_bps (Examples.ex_dbg ((12289, false) :: nil))) (s_pc Examples.ex_state1) <> None /\
   bp_sorted (d_bps (Examples.ex_dbg ((12289, false) :: (12290, true) :: nil))).
 Proof. split; [exact Examples.ex_breakpoint_at_pc|exact Examples.ex_sorted]. Qed.
+
+(** `.break` before `.orig x4000` and between two statements: marks 0 and 1. *)
+Example C11_break_nonvacuous :
+  match assemble false nil ex_break_src with
+  | (Ok im, _) => i_bps im = (0, true) :: (1, true) :: nil /\ i_orig im = Some 16384
+  | _ => False
+  end.
+Proof. exact ex_break_image. Qed.
